@@ -134,6 +134,12 @@ def gen_case(rnd, tier, index):
     origin = wrnd.choice(('nodata', 'nodata', 'xlsx', 'xlsx', 'yml', 'json', 'pkl'))
     if origin != 'xlsx' and wrnd.random() < 0.3:
         wbgen.add_table_gadget(wrnd, spec)
+    poison = None
+    if origin in ('nodata', 'xlsx') and wrnd.random() < 0.12:
+        # a formula that cannot be compiled (and one that reads it): every read of it raises,
+        # in whatever order and through whatever path, and nothing else is disturbed
+        poison = wbgen.add_poison_gadget(wrnd, spec, bad_forms=(
+            'SUBTOTAL({c},A1:A2)', 'SUM((A1):(C3))'))
     if wrnd.random() < 0.1:
         wbgen.add_branch_gadget(wrnd, spec)       # only one branch of an IF is calculated first
     if wrnd.random() < 0.25:
@@ -183,6 +189,10 @@ def gen_case(rnd, tier, index):
         g = [a for a in spec['gadget'] if a in cand]
         wrnd.shuffle(g)
         targets = (g[:3] + [t for t in targets if t not in g])[:N_TARGETS]
+    if poison:
+        pq = [c['a'] for c in spec['cells'] if c.get('poison')]
+        targets = (pq + [t for t in targets if t not in pq])[:N_TARGETS]
+        cfg['poison'] = pq
     if spec.get('lookup_gadget') and wrnd.random() < 0.8:
         lg = [a for a in spec['lookup_gadget'] if a in cand]
         targets = (lg[:3] + [t for t in targets if t not in lg[:3]])[:N_TARGETS]
@@ -463,12 +473,17 @@ def run_case(case):
                     count('probe:blank-cell-outside-used-area')
                 continue
             except Exception as exc:   # noqa
+                if op['a'] in cfg.get('poison', ()):
+                    count('probe:read-of-a-cell-that-cannot-be-compiled-raised')
                 if op['path'] in ('col', 'row') and expected.get(op['a'], ('err', 0))[1] is None:
                     # a blank cell beyond the used area: nothing to clip the range to
                     count('probe:blank-cell-outside-used-area')
                     events.append((i, 'exc-blank', type(exc).__name__))
                     continue
-                if any(expected.get(c, ('err',))[0] == 'ok' for c in (op.get('addrs') or [op['a']])):
+                # (a read that takes in a cell the reference cannot evaluate either may raise)
+                involved = op.get('addrs') or (st.range_members(op['rng']) if 'rng' in op
+                                               else [op['a']])
+                if all(expected.get(c, ('err',))[0] == 'ok' for c in involved):
                     violate('exception', i, op, 'a value', f'{type(exc).__name__}: {str(exc)[-200:]}',
                             exc=type(exc).__name__)
                 events.append((i, 'exc', type(exc).__name__))
@@ -478,6 +493,11 @@ def run_case(case):
             for a, v in got.items():
                 if a not in st.all:
                     continue
+                if a in cfg.get('poison', ()) and expected.get(a, ('ok',))[0] == 'err':
+                    violate('value-where-every-read-has-to-raise', i, op,
+                            'an exception (the formula cannot be compiled)', values.jsonable(v),
+                            cell=a)
+                    break
                 if op['path'] == 'cell':
                     cell_path_done.add(a)
                 elif a not in cell_path_done and wbgen.is_formula_cell(st.dag.cell[a]):
